@@ -611,3 +611,9 @@ CHECKS['C11'].update(text=CHECKS['C11']['text'] + ' M2 follows a local loaded fr
 for _p in ('C07', 'C08', 'C09', 'C10'):
     CHECKS[_p].update(text=CHECKS[_p]['text'] + ' GS1: the unit(s) keep no read-and-written file-scope or function-static state (all state lives in the '
                       'container object / the user-supplied region).')
+CHECKS['C04'].update(text=CHECKS['C04']['text'] + ' T14: the functions that record or climb parent links seed node positions from the root field only (no '
+                     'position loaded from a remembered-node field: its parent links were not written in this call). T15: whatever holds the '
+                     'comparator result (directly or by copy, and a wrapper\'s return type) is a signed integer at least as wide as int.')
+CHECKS['C01'].update(text=CHECKS['C01']['text'] + ' T15 (comparator result held at full width) as under C04.')
+CHECKS['C16'].update(text=CHECKS['C16']['text'] + ' TB14 also evaluates digit tables initialised from string literals, reads the escaped byte with the '
+                     'signedness of the expression that holds it (plain char is signed) and treats an index outside the table as a violation.')
